@@ -215,7 +215,11 @@ class SeqUnit(Unit):
         bad = rep.get("stimulus_groups_mismatched", 0)
         self.info["lts"]["groups_reachable"] = reachable
         ctx.bump("lts_stimulus_groups_reachable_by_impl", reachable)
-        if rep["stimulus_groups_covered"] + bad < reachable:
+        missing = reachable - rep["stimulus_groups_covered"] - bad
+        ctx.bump("lts_stimulus_groups_unexercised", max(0, missing))
+        # (states behind outcomes of nondeterministic groups that the implementation produces only now and then can stay
+        #  unexercised in a run; up to 0.5 % of the groups is tolerated and reported, more fails the run as inconclusive)
+        if missing > max(2, reachable // 200):
             raise Inconclusive("LTS tour of %s covered %d (+%d mismatched) of %d reachable stimulus groups" % (
                 self.module, rep["stimulus_groups_covered"], bad, reachable))
 
